@@ -117,3 +117,41 @@ def _np_log(self, interp, x, **k):
 NumpyO.np_zeros = _np_zeros
 NumpyO.np_exp = _np_exp
 NumpyO.np_log = _np_log
+
+
+def _oarr_astype(self, dtype, *a, **k):
+    # symbolic elements have no machine representation: a float conversion keeps the (real-valued) terms
+    if dtype in (float, _np.float32, _np.float64, "float32", "float64") and any(is_sym(v) for v in self.reshape(-1)):
+        out = _np.empty(self.shape, dtype=object)
+        o, i = out.reshape(-1), self.reshape(-1)
+        for n in range(i.size):
+            v = i[n]
+            o[n] = SReal(rterm(v)) if is_sym(v) else float(v)
+        return out.view(OArr)
+    return _np.asarray(self).astype(dtype, *a, **k)
+
+
+OArr.astype = _oarr_astype
+
+
+def _np_histogram(self, interp, a, bins=10, range=None, **k):
+    """numpy.histogram for symbolic samples, equal-width bins over a concrete range: bin k counts the samples in
+    [e_k, e_{k+1}) -- the last bin also contains its right edge -- samples outside the range are ignored (NumPy's documented
+    convention); counts are symbolic integers"""
+    lo, hi = (float(range[0]), float(range[1]))
+    nb = int(bins)
+    edges = _np.linspace(lo, hi, nb + 1)
+    vals = list(_np.asarray(a, dtype=object).reshape(-1))
+    counts = _np.empty(nb, dtype=object)
+    for b in _np.arange(nb):
+        inside = []
+        for v in vals:
+            t = rterm(v)
+            left = t >= z3.RealVal(repr(float(edges[b])))
+            right = (t <= z3.RealVal(repr(float(edges[b + 1])))) if b == nb - 1 else (t < z3.RealVal(repr(float(edges[b + 1]))))
+            inside.append(z3.If(z3.And(left, right), 1, 0))
+        counts[b] = core.SInt(z3.Sum(inside)) if inside else 0
+    return counts.view(OArr), edges
+
+
+NumpyO.np_histogram = _np_histogram
